@@ -197,7 +197,8 @@ fn write_frag(s: &mut TcpStream, data: &[u8], frag: usize, drip_ms: u64) -> std:
     Ok(())
 }
 
-fn respond(s: &mut TcpStream, sc: &Script) {
+/// returns true when the connection is kept open for a further request (framings `length-ka` / `chunked-ka`)
+fn respond(s: &mut TcpStream, sc: &Script) -> bool {
     if sc.stall_ms > 0 {
         // keep the connection open without answering; the client is expected to give up
         let t0 = std::time::Instant::now();
@@ -209,8 +210,10 @@ fn respond(s: &mut TcpStream, sc: &Script) {
                 _ => {}
             }
         }
-        return;
+        return false;
     }
+    let keep = sc.framing.ends_with("-ka") && sc.cut_at.is_none();
+    let conn_hdr = if keep { "" } else { "Connection: close\r\n" };
     let mut head = format!("HTTP/1.1 {} {}\r\nContent-Type: application/ipp\r\nServer: vh-loopback\r\n", sc.status, reason(sc.status));
     let body_all = &sc.body;
     let (body, cut) = match sc.cut_at {
@@ -218,14 +221,14 @@ fn respond(s: &mut TcpStream, sc: &Script) {
         None => (&body_all[..], false),
     };
     let mut out = vec![];
-    match sc.framing.as_str() {
+    match sc.framing.trim_end_matches("-ka") {
         "length" => {
-            head.push_str(&format!("Content-Length: {}\r\nConnection: close\r\n\r\n", body_all.len()));
+            head.push_str(&format!("Content-Length: {}\r\n{}\r\n", body_all.len(), conn_hdr));
             out.extend_from_slice(head.as_bytes());
             out.extend_from_slice(body);
         }
         "chunked" => {
-            head.push_str("Transfer-Encoding: chunked\r\nConnection: close\r\n\r\n");
+            head.push_str(&format!("Transfer-Encoding: chunked\r\n{}\r\n", conn_hdr));
             out.extend_from_slice(head.as_bytes());
             // chunk sizes follow the fragment size so that chunk boundaries fall inside IPP elements
             let csz = if sc.frag == 0 { body_all.len().max(1) } else { sc.frag.max(1) };
@@ -256,7 +259,11 @@ fn respond(s: &mut TcpStream, sc: &Script) {
     }
     let _ = write_frag(s, &out, sc.frag, sc.drip_ms);
     let _ = s.flush();
+    if keep {
+        return true;
+    }
     let _ = s.shutdown(std::net::Shutdown::Both);
+    false
 }
 
 impl Server {
@@ -281,31 +288,37 @@ impl Server {
                     std::thread::spawn(move || {
                         let _ = s.set_nodelay(true);
                         let _ = s.set_read_timeout(Some(Duration::from_secs(20)));
-                        let Some(rq) = read_request(&mut s, conn, &seqc) else { return };
-                        seen.lock().unwrap().push(rq.clone());
-                        // concurrency gate: wait until this request's id is at the head of the release list
-                        let rid = if rq.body.len() >= 8 { u32::from_be_bytes([rq.body[4], rq.body[5], rq.body[6], rq.body[7]]) } else { 0 };
-                        {
-                            let (m, cv) = &*gate;
-                            let mut g = m.lock().unwrap();
-                            if g.enabled {
-                                g.waiting.push(rid as u64);
-                                cv.notify_all();
-                                let t0 = std::time::Instant::now();
-                                while g.release.first() != Some(&rid) && t0.elapsed() < Duration::from_secs(20) {
-                                    let (g2, _) = cv.wait_timeout(g, Duration::from_millis(100)).unwrap();
-                                    g = g2;
+                        // one request per connection, or several when the script keeps the connection alive
+                        loop {
+                            let Some(rq) = read_request(&mut s, conn, &seqc) else { return };
+                            seen.lock().unwrap().push(rq.clone());
+                            // concurrency gate: wait until this request's id is at the head of the release list
+                            let rid = if rq.body.len() >= 8 { u32::from_be_bytes([rq.body[4], rq.body[5], rq.body[6], rq.body[7]]) } else { 0 };
+                            {
+                                let (m, cv) = &*gate;
+                                let mut g = m.lock().unwrap();
+                                if g.enabled {
+                                    g.waiting.push(rid as u64);
+                                    cv.notify_all();
+                                    let t0 = std::time::Instant::now();
+                                    while g.release.first() != Some(&rid) && t0.elapsed() < Duration::from_secs(20) {
+                                        let (g2, _) = cv.wait_timeout(g, Duration::from_millis(100)).unwrap();
+                                        g = g2;
+                                    }
                                 }
                             }
-                        }
-                        let sc = responder(&rq);
-                        respond(&mut s, &sc);
-                        {
-                            let (m, cv) = &*gate;
-                            let mut g = m.lock().unwrap();
-                            if g.enabled && g.release.first() == Some(&rid) {
-                                g.release.remove(0);
-                                cv.notify_all();
+                            let sc = responder(&rq);
+                            let keep = respond(&mut s, &sc);
+                            {
+                                let (m, cv) = &*gate;
+                                let mut g = m.lock().unwrap();
+                                if g.enabled && g.release.first() == Some(&rid) {
+                                    g.release.remove(0);
+                                    cv.notify_all();
+                                }
+                            }
+                            if !keep {
+                                return;
                             }
                         }
                     });
